@@ -8,6 +8,10 @@ META_EXCLUDE.add('node_call_id')
 META_EXCLUDE.add('node_sock')
 META_EXCLUDE.add('node_without_result')
 META_EXCLUDE.add('success_channels')
+# set and read by Manager while an event is dispatched, not class attributes of Event
+META_EXCLUDE.add('complete_channels')
+META_EXCLUDE.add('cause')
+META_EXCLUDE.add('effects')
 
 
 def load_event(s):
